@@ -939,7 +939,7 @@ S_TYPES = ["text", "integer", "int", "decimal", "note", "date", "time", "dateTim
            "include", "cascading_select l1", "loop", "group", "repeat"]
 S_NAMES = ["q1", "q2", "q3", "g1", "r1", "a", "b", "name", "label", "meta", "data", "instanceID", "q1", "Q1", "q_1", "q-1", "q.1", "1q", "q 1",
            "", "é", "_", "-", "x" * 40, "audit", "other", "q1_other", "r1_count", "__version__", "entity", "choices", "l1", "e1",
-           "generated_note_name_2", "xml", "root", "item", "instance"]
+           "generated_note_name_2", "xml", "root", "item", "instance", "a:b:c", "foo:q", ":x", "odk:q", "x:", "jr:q1"]
 S_REFS = ["${q1}", "${q2}", "${g1}", "${r1}", "${zz}", "${", "${}", "${q1", "${ q1 }", "${q1} ${q2}", "${last-saved#q1}", "${last-saved#zz}",
           "${last-saved#}", "$", "{q1}", "${q1}}", "${${q1}}", "${Q1}", "${q 1}", "${1q}"]
 S_EXPR = [". > 1", ". = ${q1}", "${q1} = 'a'", "selected(${q2}, 'a')", "count(${r1}) > 1", "indexed-repeat(${q1}, ${r1}, 1)",
@@ -961,11 +961,12 @@ S_COLS = ["label", "hint", "relevant", "required", "constraint", "constraint_mes
           "value", "tag", "command", "bind", "control", "media", "label::", "::en", "bind::relevant", "bind::type", "intent", "autoplay",
           "sms_field", "instance", "body", "list_name", "name", "type"]
 S_CCOLS = ["label", "label::en", "label::fr", "image", "audio", "video", "media::image", "extra", "e x", "1col", "name", "value", "filter",
+           "e1::x", "odk:col", "a:b", "foo:bar", "label:en", "extra::a::b",
            "label::", "big-image", "list_name", "list name", "geometry", "xml", "itextId"]
-S_SETTINGS = {"form_title": S_TEXT, "form_id": ["f1", "", "a b", "é"], "id_string": ["f2"], "version": ["1", "v2", ""], "name": ["root", "1x", "a b", "data"],
+S_SETTINGS = {"form_title": S_TEXT, "form_id": ["f1", "", "a b", "é"], "id_string": ["f2"], "version": ["1", "v2", ""], "name": ["root", "1x", "a b", "data", "a:b:c", "x:y", "a::b", ":r"],
               "default_language": ["en", "fr", "default", "zz", ""], "instance_name": S_EXPR, "submission_url": ["http://x/y?a=1&b=2", ""],
               "public_key": ["abc", ""], "auto_send": ["true", "x"], "auto_delete": ["false"], "style": ["pages", "x y"],
-              "namespaces": ['a="http://a"', "a=b", "x", 'a="http://a" a="http://b"', ""], "attribute::a:b": ["1"], "attribute::x": ["<>"],
+              "namespaces": ['a="http://a"', "a=b", "x", 'a="http://a" a="http://b"', "", "foo=", 'foo=""', "=http://x", 'a="http://a" b='], "attribute::a:b": ["1"], "attribute::x": ["<>"],
               "attribute::": ["v"], "instance_xmlns": ["http://q", ""], "omit_instanceID": ["yes", "no", "x"], "allow_choice_duplicates": ["yes", "no", "x"],
               "clean_text_values": ["yes", "no", "x"], "prefix": ["p"], "delimiter": ["d"], "sms_keyword": ["k"], "add_none_option": ["yes", "x"],
               "instance_id": ["uid", "x"], "title": ["T"], "unknown_setting": ["1"]}
